@@ -14,12 +14,12 @@ import (
 // flv Header Size, total is 9Byte.
 // 	Signatures	3Byte	'FLV' = 0x46 0x4c 0x56
 // 	Version		1Byte	0x01
-// 	TypeFlags	1Byte 	bit0:audio bit2:video
+// 	TypeFlags	1Byte 	bit0:video bit2:audio (FLV 规范 E.2：UB[5] 保留, UB[1] Audio, UB[1] 保留, UB[1] Video)
 // 	DataOffset	4Byte	FLV Header Length
 const (
 	FlvHeaderSize   = 9
-	TypeFlagsVideo  = 0x04
-	TypeFlagsAudio  = 0x01
+	TypeFlagsVideo  = 0x01
+	TypeFlagsAudio  = 0x04
 	TypeFlagsOffset = 4
 )
 
